@@ -44,6 +44,7 @@ type world struct {
 	payload   []byte
 	service   string
 	product   string
+	flavour   string // cache configuration of the factories used next
 }
 
 func newWorld(service, product string) (*world, error) {
@@ -57,22 +58,36 @@ func newWorld(service, product string) (*world, error) {
 		payload: []byte("tenant data"), service: service, product: product}, nil
 }
 
+// Flavours are the cache configurations every pair is executed under: isolation must not depend on what is cached where.
+var Flavours = []string{"default", "shared-ik", "session-cache", "no-cache"}
+
 func (w *world) factory(mode string) *appencryption.SessionFactory {
-	if f, ok := w.factories[mode]; ok {
+	key := w.flavour + "\x00" + mode
+	if f, ok := w.factories[key]; ok {
 		return f
 	}
 	var ms appencryption.Metastore = w.base
 	if mode != "" {
 		ms = suffixMS{w.base, mode}
 	}
-	pol := appencryption.NewCryptoPolicy()
+	var pol *appencryption.CryptoPolicy
+	switch w.flavour {
+	case "shared-ik": // one IK cache for all partitions of the factory: the other partition's key is cached when its record arrives
+		pol = appencryption.NewCryptoPolicy(appencryption.WithSharedIntermediateKeyCache(1000))
+	case "session-cache":
+		pol = appencryption.NewCryptoPolicy(appencryption.WithSessionCache())
+	case "no-cache":
+		pol = appencryption.NewCryptoPolicy(appencryption.WithNoCache())
+	default:
+		pol = appencryption.NewCryptoPolicy()
+	}
 	f := appencryption.NewSessionFactory(&appencryption.Config{Service: w.service, Product: w.product, Policy: pol}, ms, w.km, w.crypto)
-	w.factories[mode] = f
+	w.factories[key] = f
 	return f
 }
 
 func (w *world) session(part, mode string) (*appencryption.Session, error) {
-	k := mode + "\x00" + part
+	k := w.flavour + "\x00" + mode + "\x00" + part
 	if s, ok := w.sessions[k]; ok {
 		return s, nil
 	}
@@ -85,7 +100,7 @@ func (w *world) session(part, mode string) (*appencryption.Session, error) {
 }
 
 func (w *world) record(part, mode string) (*appencryption.DataRowRecord, error) {
-	k := mode + "\x00" + part
+	k := w.flavour + "\x00" + mode + "\x00" + part
 	if d, ok := w.records[k]; ok {
 		return d, nil
 	}
@@ -121,6 +136,7 @@ type Event struct {
 	Accepted bool   `json:"accepted"` // decrypt returned plaintext
 	Plain    bool   `json:"plain"`    // ... and it is the producer's payload
 	Panic    string `json:"panic"`
+	Flavour  string `json:"flavour"`
 	Run      int    `json:"run"`
 }
 
@@ -155,42 +171,48 @@ func Replay(inPath, tracePath, outPath, service, product string) error {
 			res.Nontrivial++
 			res.Sample(raw, 3)
 		}
-		ev := Event{E: "pair", P: p, Q: q, MP: mp, MQ: mq, Same: p == q, SameMode: mp == mq, Run: 1}
-		func() {
-			defer func() {
-				if x := recover(); x != nil {
-					ev.Panic = fmt.Sprintf("%v\n%s", x, debug.Stack())
+		for _, fl := range Flavours {
+			w.flavour = fl
+			ev := Event{E: "pair", P: p, Q: q, MP: mp, MQ: mq, Same: p == q, SameMode: mp == mq, Flavour: fl, Run: 1}
+			func() {
+				defer func() {
+					if x := recover(); x != nil {
+						ev.Panic = fmt.Sprintf("%v\n%s", x, debug.Stack())
+					}
+				}()
+				d, err := w.record(q, mq)
+				if err != nil {
+					ev.Panic = "producer could not encrypt: " + err.Error()
+					return
 				}
+				s, err := w.session(p, mp)
+				if err != nil {
+					ev.Panic = "cannot open session: " + err.Error()
+					return
+				}
+				cp := *d
+				k := *d.Key
+				pm := *d.Key.ParentKeyMeta
+				k.ParentKeyMeta = &pm
+				cp.Key = &k
+				out, err := s.Decrypt(context.Background(), cp)
+				ev.Accepted = err == nil
+				ev.Plain = err == nil && bytes.Equal(out, w.payload)
 			}()
-			d, err := w.record(q, mq)
-			if err != nil {
-				ev.Panic = "producer could not encrypt: " + err.Error()
-				return
+			if ev.Same && ev.Accepted != c.Valid {
+				drift++
 			}
-			s, err := w.session(p, mp)
-			if err != nil {
-				ev.Panic = "cannot open session: " + err.Error()
-				return
-			}
-			cp := *d
-			k := *d.Key
-			pm := *d.Key.ParentKeyMeta
-			k.ParentKeyMeta = &pm
-			cp.Key = &k
-			out, err := s.Decrypt(context.Background(), cp)
-			ev.Accepted = err == nil
-			ev.Plain = err == nil && bytes.Equal(out, w.payload)
-		}()
-		if ev.Same && ev.Accepted != c.Valid {
-			drift++
+			tw.Emit(ev)
 		}
-		tw.Emit(ev)
 		return nil
 	})
 	// empty partition ids are refused
-	for _, mode := range []string{"", "r"} {
-		_, e := w.factory(mode).GetSession("")
-		tw.Emit(Event{E: "empty", MP: mode, Accepted: e == nil, Run: 1})
+	for _, fl := range Flavours {
+		w.flavour = fl
+		for _, mode := range []string{"", "r"} {
+			_, e := w.factory(mode).GetSession("")
+			tw.Emit(Event{E: "empty", MP: mode, Accepted: e == nil, Flavour: fl, Run: 1})
+		}
 	}
 	res.Events = tw.N
 	res.Traces = 1
